@@ -1,4 +1,9 @@
 //! C18 — the argv handed to the process layer is exactly program + arguments, byte for byte.
+//!
+//! Shape (argument counts, string lengths, presence of the program option) is path-split: a
+//! constant on each explored path, so `Vec`/`String` sizes stay concrete. The *bytes* of every
+//! string are symbolic over all of ASCII (0x01..=0x7f: every shell metacharacter, whitespace,
+//! quote, control character), and one argument may instead be a concrete multi-byte string.
 use std::borrow::Cow;
 use std::ffi::{OsStr, OsString};
 use std::os::unix::ffi::{OsStrExt, OsStringExt};
@@ -7,21 +12,20 @@ use std::path::PathBuf;
 use process_wrap::tokio::WrapKind;
 use watchexec_supervisor::command::{Command, Program, Shell, SpawnOptions};
 
-/// A short string with solver-chosen bytes from a set that contains every shell-significant
-/// class (space, quotes, `$`, `*`, newline, backslash) plus a 2-byte UTF-8 character.
-fn any_string(max: usize) -> String {
-    const ALPHABET: [&str; 10] = ["a", " ", "\"", "'", "$", "*", "\n", "\\", "é", "-"];
-    let n: usize = kani::any();
-    kani::assume(n <= max);
-    let mut s = String::new();
-    for i in 0..2 {
-        if i < n {
-            let k: usize = kani::any();
-            kani::assume(k < ALPHABET.len());
-            s.push_str(ALPHABET[k]);
-        }
+use crate::split;
+
+/// A string of exactly `len` (<= 2) symbolic ASCII bytes (never NUL).
+fn sym_ascii(len: usize) -> String {
+    let mut v = Vec::with_capacity(2);
+    let mut i = 0;
+    while i < len {
+        let b: u8 = kani::any();
+        kani::assume(b >= 1 && b < 0x80);
+        v.push(b);
+        i += 1;
     }
-    s
+    // SAFETY: all bytes are ASCII
+    unsafe { String::from_utf8_unchecked(v) }
 }
 
 fn bytes_eq(a: &OsStr, b: &[u8]) -> bool {
@@ -52,59 +56,89 @@ fn check_wrappers(sp: &process_wrap::tokio::TokioCommandWrap, o: SpawnOptions) {
     assert!(sp.verif_wrap_count() == want, "C18: unexpected extra wrapper");
 }
 
-/// Program::Exec with 0..=3 arguments of 0..=2 symbolic characters each.
-#[kani::proof]
-#[kani::unwind(6)]
-pub fn c18_exec_argv_exact() {
-    let nargs: usize = kani::any();
-    kani::assume(nargs <= 3);
-    let a = [any_string(2), any_string(2), any_string(2)];
-    let mut args = Vec::new();
-    for i in 0..3 {
-        if i < nargs {
-            args.push(a[i].clone());
-        }
+fn exec_scenario(lens: [usize; 3], nargs: usize, unicode_first: bool) {
+    let mut a = [sym_ascii(lens[0]), sym_ascii(lens[1]), sym_ascii(lens[2])];
+    if unicode_first {
+        a[0] = String::from("é 'x'"); // multi-byte + space + quotes, concrete
     }
-    let prog = any_string(2);
+    let mut args = Vec::with_capacity(3);
+    let mut i = 0;
+    while i < nargs {
+        args.push(a[i].clone());
+        i += 1;
+    }
+    let prog = sym_ascii(1);
     let options = any_options();
     let cmd = Command { program: Program::Exec { prog: PathBuf::from(prog.clone()), args }, options };
     let sp = cmd.to_spawnable();
     let c = sp.command();
-    kani::cover!(nargs == 3, "three args");
-    kani::cover!(nargs >= 1 && a[0].is_empty(), "empty-string argument");
+    kani::cover!(nargs == 3 && lens[0] == 0, "three args, first empty");
+    kani::cover!(nargs >= 1 && lens[0] == 2 && a[0].as_bytes()[0] == b' ' && a[0].as_bytes()[1] == b'*', "argument ' *'");
     assert!(bytes_eq(&c.verif_program, prog.as_bytes()), "C18: program altered");
     assert!(c.verif_args.len() == nargs, "C18: argument count changed (split or dropped)");
-    for i in 0..3 {
-        if i < nargs {
-            assert!(bytes_eq(&c.verif_args[i], a[i].as_bytes()), "C18: argument bytes altered");
-        }
+    let mut i = 0;
+    while i < nargs {
+        assert!(bytes_eq(&c.verif_args[i], a[i].as_bytes()), "C18: argument bytes altered");
+        i += 1;
     }
     check_wrappers(&sp, options);
     std::mem::forget(sp);
     std::mem::forget(cmd);
+    std::mem::forget(a);
 }
 
-/// Program::Shell: shell, options.., program option?, command, args..
+/// Program::Exec with 0..=3 arguments; lengths (0,1,2) resp. (2,0,1); bytes symbolic.
 #[kani::proof]
-#[kani::unwind(6)]
-pub fn c18_shell_argv_order() {
-    let nopts: usize = kani::any();
-    let nargs: usize = kani::any();
-    kani::assume(nopts <= 2 && nargs <= 2);
-    let o = [any_string(2), any_string(2)];
-    let a = [any_string(2), any_string(2)];
-    let command = any_string(2);
-    let shell_prog = any_string(2);
-    let progopt: Option<String> = if kani::any() { Some(any_string(2)) } else { None };
-    let mut options_v = Vec::new();
-    let mut args_v = Vec::new();
-    for i in 0..2 {
-        if i < nopts {
-            options_v.push(o[i].clone());
-        }
-        if i < nargs {
-            args_v.push(a[i].clone());
-        }
+#[kani::unwind(8)]
+pub fn c18_exec_argv_exact() {
+    split!(4, |nargs| {
+        split!(2, |pat| {
+            exec_scenario(if pat == 0 { [0, 1, 2] } else { [2, 0, 1] }, nargs, false);
+        })
+    });
+}
+
+/// Thorough: all 27 length combinations x 0..=3 arguments.
+#[kani::proof]
+#[kani::unwind(8)]
+pub fn c18_exec_argv_exact_full() {
+    split!(4, |nargs| {
+        split!(3, |l0| {
+            split!(3, |l1| {
+                split!(3, |l2| {
+                    exec_scenario([l0, l1, l2], nargs, false);
+                })
+            })
+        })
+    });
+}
+
+/// The same with a multi-byte first argument.
+#[kani::proof]
+#[kani::unwind(8)]
+pub fn c18_exec_argv_unicode() {
+    split!(3, |n| {
+        exec_scenario([0, 1, 2], n + 1, true);
+    });
+}
+
+fn shell_scenario(nopts: usize, nargs: usize, with_progopt: bool, len: usize) {
+    let o = [sym_ascii(len), sym_ascii(2 - len)];
+    let a = [sym_ascii(2 - len), sym_ascii(len)];
+    let command = sym_ascii(2);
+    let shell_prog = sym_ascii(1);
+    let progopt: Option<String> = if with_progopt { Some(sym_ascii(2)) } else { None };
+    let mut options_v = Vec::with_capacity(2);
+    let mut args_v = Vec::with_capacity(2);
+    let mut i = 0;
+    while i < nopts {
+        options_v.push(o[i].clone());
+        i += 1;
+    }
+    let mut i = 0;
+    while i < nargs {
+        args_v.push(a[i].clone());
+        i += 1;
     }
     let options = any_options();
     let cmd = Command {
@@ -121,17 +155,17 @@ pub fn c18_shell_argv_order() {
     };
     let sp = cmd.to_spawnable();
     let c = sp.command();
-    kani::cover!(nopts == 2 && nargs == 2 && progopt.is_some(), "full shell form");
-    kani::cover!(progopt.is_none(), "no program option");
+    kani::cover!(nopts == 2 && nargs == 2 && with_progopt, "full shell form");
+    kani::cover!(!with_progopt, "no program option");
     assert!(bytes_eq(&c.verif_program, shell_prog.as_bytes()), "C18: shell program altered");
-    let want = nopts + progopt.is_some() as usize + 1 + nargs;
+    let want = nopts + with_progopt as usize + 1 + nargs;
     assert!(c.verif_args.len() == want, "C18: shell argv length wrong");
     let mut k = 0;
-    for i in 0..2 {
-        if i < nopts {
-            assert!(bytes_eq(&c.verif_args[k], o[i].as_bytes()), "C18: shell option altered or misplaced");
-            k += 1;
-        }
+    let mut i = 0;
+    while i < nopts {
+        assert!(bytes_eq(&c.verif_args[k], o[i].as_bytes()), "C18: shell option altered or misplaced");
+        k += 1;
+        i += 1;
     }
     if let Some(p) = &progopt {
         assert!(bytes_eq(&c.verif_args[k], p.as_bytes()), "C18: program option altered or misplaced");
@@ -139,13 +173,48 @@ pub fn c18_shell_argv_order() {
     }
     assert!(bytes_eq(&c.verif_args[k], command.as_bytes()), "C18: command string altered or misplaced");
     k += 1;
-    for i in 0..2 {
-        if i < nargs {
-            assert!(bytes_eq(&c.verif_args[k], a[i].as_bytes()), "C18: extra argument altered or misplaced");
-            k += 1;
-        }
+    let mut i = 0;
+    while i < nargs {
+        assert!(bytes_eq(&c.verif_args[k], a[i].as_bytes()), "C18: extra argument altered or misplaced");
+        k += 1;
+        i += 1;
     }
     check_wrappers(&sp, options);
     std::mem::forget(sp);
     std::mem::forget(cmd);
+    std::mem::forget((o, a));
+}
+
+/// Program::Shell: shell, options.., program option?, command, args..
+#[kani::proof]
+#[kani::unwind(8)]
+pub fn c18_shell_argv_with_progopt() {
+    split!(3, |nopts| {
+        split!(3, |nargs| {
+            shell_scenario(nopts, nargs, true, 1);
+        })
+    });
+}
+#[kani::proof]
+#[kani::unwind(8)]
+pub fn c18_shell_argv_no_progopt() {
+    split!(3, |nopts| {
+        split!(3, |nargs| {
+            shell_scenario(nopts, nargs, false, 1);
+        })
+    });
+}
+/// Thorough: also vary the string lengths.
+#[kani::proof]
+#[kani::unwind(8)]
+pub fn c18_shell_argv_full() {
+    split!(3, |nopts| {
+        split!(3, |nargs| {
+            split!(2, |p| {
+                split!(3, |len| {
+                    shell_scenario(nopts, nargs, p == 1, len);
+                })
+            })
+        })
+    });
 }
